@@ -1183,7 +1183,9 @@ func (a *nilAnalysis) findings() (out []nilFinding, checked int) {
 			if pq.req.depth < 2 {
 				var base ssa.Value = arg
 				if idx, suffix, ok := a.liftable(caller, base); ok {
-					queue = append(queue, pending{caller, liftedReq{idx, suffix + pq.req.suffix, pq.req.why, pq.req.what, pq.req.depth + 1, pq.req.origin}})
+					// the reason found at this site travels with the requirement (a possibly-nil field handed on as an
+					// argument stays possibly nil for the callers that cannot establish it)
+					queue = append(queue, pending{caller, liftedReq{idx, suffix + pq.req.suffix, why, pq.req.what, pq.req.depth + 1, pq.req.origin}})
 					continue
 				}
 			}
